@@ -623,4 +623,193 @@ theorem reuse_after_rotation_revokes {w w1 : World} {c : TClient} {rt : RefreshT
   obtain ⟨w2, h2, hrev, _⟩ := reuse_revokes_session w1 c rt req2 ct2 e1 s1 hexp he1 (hvalid e1 he1) hs1 (by rw [hiss]; exact hlater)
   exact ⟨w2, h2, hrev⟩
 
+/-! ## 6. Histories: what is revoked stays revoked, whatever happens next -/
+
+/-- `w'` differs from `w` by at most write transactions on entries that exist (every event of the
+model is of this kind). -/
+def AcctStep (w w' : World) : Prop :=
+  ∀ a e, w.acct a = some e →
+    ∃ e', w'.acct a = some e' ∧
+      (e' = e ∨ ∃ e0 md ct cid, e0.uats = e.uats ∧ e0.o2s = e.o2s ∧
+        e' = Kanidm.SessionPlugin.step e0 (.write md ct cid))
+
+theorem acctStep_refl (w : World) : AcctStep w w := fun _ e h => ⟨e, h, Or.inl rfl⟩
+
+theorem acctStep_of_accts {w w1 w' : World} (h : AcctStep w w1) (ha : w'.accts = w1.accts) : AcctStep w w' := by
+  intro a e he
+  obtain ⟨e', he', hc⟩ := h a e he
+  exact ⟨e', by simpa [World.acct, ha] using he', hc⟩
+
+theorem acctStep_update {w w' : World} {a : Nat} {f : Entry → Entry} {m : Mod} {ct : Nat}
+    (hf : ∀ e : Entry, (f e).uats = e.uats ∧ (f e).o2s = e.o2s) (h : w.update a f m ct = some w') : AcctStep w w' := by
+  obtain ⟨e0, he0, he1, hoth, _⟩ := update_spec h
+  intro b e hb
+  by_cases hba : b = a
+  · subst hba
+    rw [he0] at hb; cases hb
+    exact ⟨_, he1, Or.inr ⟨f e0, m, ct, w.cid, (hf e0).1, (hf e0).2, rfl⟩⟩
+  · exact ⟨e, by rw [hoth b hba]; exact hb, Or.inl rfl⟩
+
+theorem acctStep_write {w w' : World} {a : Nat} {m : Mod} {ct : Nat} (h : w.write a m ct = some w') :
+    AcctStep w w' := acctStep_update (f := id) (fun _ => ⟨rfl, rfl⟩) h
+
+theorem generate_acctStep {w w' : World} {c : TClient} {ct : Nat} {scopes : List Nat} {parent : Option Nat}
+    {sid acct : Nat} {nonce : Option Nat} {x : Except OErr Resp}
+    (h : generate w c ct scopes parent sid acct nonce = (w', x)) : AcctStep w w' := by
+  unfold generate at h
+  cases hw : w.write acct (.grant sid parent (some (sessionExpiry ct c.refreshExpiry)) ct) ct with
+  | none => simp [hw] at h; rw [← h.1]; exact acctStep_refl w
+  | some w1 => simp [hw] at h; rw [← h.1]; exact acctStep_write hw
+
+theorem exchangeCode_acctStep {hash : Nat → Nat} {w w' : World} {c : TClient} {t : Tok} {u : Nat}
+    {v : Option Nat} {ct : Nat} {x : Except OErr Resp}
+    (h : exchangeCode hash w c t u v ct = (w', x)) : AcctStep w w' := by
+  unfold exchangeCode at h
+  cases t with
+  | access _ _ => simp at h; rw [← h.1]; exact acctStep_refl w
+  | garbage => simp at h; rw [← h.1]; exact acctStep_refl w
+  | refresh _ _ => simp at h; rw [← h.1]; exact acctStep_refl w
+  | clientAccess _ _ => simp at h; rw [← h.1]; exact acctStep_refl w
+  | code key cd =>
+    simp only at h
+    repeat' split at h
+    all_goals first
+      | (simp only [Prod.mk.injEq] at h; rw [← h.1]; exact acctStep_refl w)
+      | skip
+    all_goals
+      rename_i hg
+      simp only [Prod.mk.injEq] at h
+      first
+        | (rw [← h.1]; exact acctStep_of_accts (generate_acctStep hg) rfl)
+        | (rw [← h.1]; exact generate_acctStep hg)
+
+theorem exchangeRefresh_acctStep {w w' : World} {c : TClient} {t : Tok} {req : Option (List Nat)} {ct : Nat}
+    {x : Except OErr Resp} (h : exchangeRefresh w c t req ct = (w', x)) : AcctStep w w' := by
+  unfold exchangeRefresh at h
+  cases t with
+  | access _ _ => simp at h; rw [← h.1]; exact acctStep_refl w
+  | garbage => simp at h; rw [← h.1]; exact acctStep_refl w
+  | code _ _ => simp at h; rw [← h.1]; exact acctStep_refl w
+  | clientAccess _ _ => simp at h; rw [← h.1]; exact acctStep_refl w
+  | refresh key rt =>
+    simp only at h
+    repeat' split at h
+    all_goals first
+      | (simp only [Prod.mk.injEq] at h; rw [← h.1]; exact acctStep_refl w)
+      | exact generate_acctStep h
+      | (rename_i hw; simp only [Prod.mk.injEq] at h; rw [← h.1]; exact acctStep_write hw)
+
+theorem exchangeCC_acctStep {w w' : World} {c : TClient} {valid : Bool} {req : Option (List Nat)} {ct : Nat}
+    {x : Except OErr Resp} (h : exchangeCC w c valid req ct = (w', x)) : AcctStep w w' := by
+  unfold exchangeCC at h
+  split at h
+  · simp only [Prod.mk.injEq] at h; rw [← h.1]; exact acctStep_refl w
+  · simp only at h
+    split at h
+    · simp only [Prod.mk.injEq] at h; rw [← h.1]; exact acctStep_refl w
+    · split at h
+      · simp only [Prod.mk.injEq] at h; rw [← h.1]; exact acctStep_refl w
+      · rename_i hw
+        simp only [Prod.mk.injEq] at h
+        rw [← h.1]
+        exact acctStep_of_accts (acctStep_write hw) rfl
+
+theorem tokenEndpoint_acctStep {hash : Nat → Nat} {w : World} {auth : Option (List Char × Option Nat)}
+    {g : Grant} {ct : Nat} : AcctStep w (tokenEndpoint hash w auth g ct).1 := by
+  unfold tokenEndpoint
+  cases ha : authenticate w auth with
+  | error e => exact acctStep_refl w
+  | ok cv =>
+    obtain ⟨c, valid⟩ := cv
+    simp only
+    have hd : ∀ w' x, dispatch hash w c valid g ct = (w', x) → AcctStep w w' := by
+      intro w' x hx
+      unfold dispatch at hx
+      cases g with
+      | code t u v => exact exchangeCode_acctStep hx
+      | refresh t s => exact exchangeRefresh_acctStep hx
+      | cc s => exact exchangeCC_acctStep hx
+    cases hr : dispatch hash w c valid g ct with
+    | mk w' x =>
+      cases x with
+      | ok r => simp only; split; exact hd _ _ hr; exact acctStep_refl w
+      | error e => simp only; split; exact hd _ _ hr; exact acctStep_refl w
+
+theorem revoke_acctStep (w : World) (t : Tok) (ct : Nat) : AcctStep w (revoke w t ct).1 := by
+  have core : ∀ sid exp acct, AcctStep w (revokeCore w sid exp acct ct).1 := by
+    intro sid exp acct
+    unfold revokeCore
+    split
+    · exact acctStep_refl w
+    · split
+      · rename_i hw; exact acctStep_write hw
+      · exact acctStep_refl w
+  unfold revoke
+  cases t with
+  | garbage => exact acctStep_refl w
+  | access key a => simp only; split; exact acctStep_refl w; exact core _ _ _
+  | refresh key r => simp only; split; exact acctStep_refl w; exact core _ _ _
+  | clientAccess key a => simp only; split; exact acctStep_refl w; exact core _ _ _
+  | code key cd => simp only; split <;> exact acctStep_refl w
+
+/-- Every event of a history is such a step. -/
+theorem step_acctStep (hash : Nat → Nat) (w : World) (op : Op) : AcctStep w (step hash w op) := by
+  cases op with
+  | token auth g ct => simp only [step]; exact tokenEndpoint_acctStep
+  | revoke t ct => simp only [step]; exact revoke_acctStep w t ct
+  | dir a m ct =>
+    simp only [step]
+    cases hw : w.write a m ct with
+    | none => exact acctStep_refl w
+    | some w' => exact acctStep_write hw
+  | setExpire a t ct =>
+    simp only [step]
+    cases hw : w.update a (fun e => { e with expire := t }) .touch ct with
+    | none => exact acctStep_refl w
+    | some w' => exact acctStep_update (f := fun e => { e with expire := t }) (fun _ => ⟨rfl, rfl⟩) hw
+  | setValidFrom a t ct =>
+    simp only [step]
+    cases hw : w.update a (fun e => { e with validFrom := t }) .touch ct with
+    | none => exact acctStep_refl w
+    | some w' => exact acctStep_update (f := fun e => { e with validFrom := t }) (fun _ => ⟨rfl, rfl⟩) hw
+
+theorem acctStep_keeps_revoked {w w' : World} (h : AcctStep w w') (a k : Nat) :
+    (O2Revoked w a k → O2Revoked w' a k) ∧ (LoginRevoked w a k → LoginRevoked w' a k) := by
+  constructor
+  · rintro ⟨e, he, hr⟩
+    obtain ⟨e', he', hc⟩ := h a e he
+    refine ⟨e', he', ?_⟩
+    rcases hc with rfl | ⟨e0, md, ct, cid, _, ho, rfl⟩
+    · exact hr
+    · exact revokedIn_o2s_write e0 md ct cid k (by rw [ho]; exact hr)
+  · rintro ⟨e, he, hr⟩
+    obtain ⟨e', he', hc⟩ := h a e he
+    refine ⟨e', he', ?_⟩
+    rcases hc with rfl | ⟨e0, md, ct, cid, hu, _, rfl⟩
+    · exact hr
+    · exact uatRevoked_write e0 md ct cid k (by unfold UatRevoked uatOf at hr ⊢; rw [hu]; exact hr)
+
+/-- **Never after the session became invalid.** Once an OAuth2 session or a login session is
+revoked it is revoked after every continuation of the history — exchanges, refreshes, client
+credentials, revocations, directory writes, changes of the validity window, at any instants, by
+any clients. -/
+theorem revocation_is_permanent (hash : Nat → Nat) (ops : List Op) (w : World) (a k : Nat) :
+    (O2Revoked w a k → O2Revoked (run hash w ops) a k) ∧
+    (LoginRevoked w a k → LoginRevoked (run hash w ops) a k) := by
+  induction ops generalizing w with
+  | nil => exact ⟨id, id⟩
+  | cons op tl ih =>
+    have h1 := acctStep_keeps_revoked (step_acctStep hash w op) a k
+    have h2 := ih (step hash w op)
+    exact ⟨fun h => h2.1 (h1.1 h), fun h => h2.2 (h1.2 h)⟩
+
+/-- Put together: after a revocation, in every later state of every history, every token of that
+session (and every token whose parent is that login session, while its own session is on record)
+is refused by refresh, introspection and userinfo. -/
+theorem revoked_session_refused_forever (hash : Nat → Nat) (ops : List Op) (w : World) (a sid : Nat)
+    (h : O2Revoked w a sid) (ct : Nat) :
+    ∃ e, (run hash w ops).acct a = some e ∧ ∀ parent, Dead e sid parent ct := by
+  obtain ⟨e, he, s, hs, hr⟩ := (revocation_is_permanent hash ops w a sid).1 h
+  exact ⟨e, he, fun _ => Or.inr ⟨s, hs, Or.inl (Or.inl hr)⟩⟩
+
 end Kanidm.OAuth2.Token
